@@ -19,6 +19,7 @@ import (
 	"context"
 	"errors"
 	"fmt"
+	"github.com/echovault/sugardb/internal/verifhook"
 	"log"
 	"math/rand"
 	"runtime"
@@ -78,6 +79,7 @@ func (server *SugarDB) SwapDBs(database1, database2 int) {
 // Flush flushes all the data from the database at the specified index.
 // When -1 is passed, all the logical databases are cleared.
 func (server *SugarDB) Flush(database int) {
+	verifhook.Point("keyspace.flush")
 	server.storeLock.Lock()
 	defer server.storeLock.Unlock()
 
@@ -117,6 +119,7 @@ func (server *SugarDB) Flush(database int) {
 }
 
 func (server *SugarDB) keysExist(ctx context.Context, keys []string) map[string]bool {
+	verifhook.Point("keyspace.keysExist")
 	server.storeLock.RLock()
 	defer server.storeLock.RUnlock()
 
@@ -133,6 +136,7 @@ func (server *SugarDB) keysExist(ctx context.Context, keys []string) map[string]
 }
 
 func (server *SugarDB) getExpiry(ctx context.Context, key string) time.Time {
+	verifhook.Point("keyspace.getExpiry")
 	server.storeLock.RLock()
 	defer server.storeLock.RUnlock()
 
@@ -147,6 +151,7 @@ func (server *SugarDB) getExpiry(ctx context.Context, key string) time.Time {
 }
 
 func (server *SugarDB) getValues(ctx context.Context, keys []string) map[string]interface{} {
+	verifhook.Point("keyspace.getValues")
 	server.storeLock.Lock()
 	defer server.storeLock.Unlock()
 
@@ -198,6 +203,7 @@ func (server *SugarDB) getValues(ctx context.Context, keys []string) map[string]
 }
 
 func (server *SugarDB) setValues(ctx context.Context, entries map[string]interface{}) error {
+	verifhook.Point("keyspace.setValues")
 	server.storeLock.Lock()
 	defer server.storeLock.Unlock()
 
@@ -250,6 +256,7 @@ func (server *SugarDB) setValues(ctx context.Context, entries map[string]interfa
 }
 
 func (server *SugarDB) setExpiry(ctx context.Context, key string, expireAt time.Time, touch bool) {
+	verifhook.Point("keyspace.setExpiry")
 	server.storeLock.Lock()
 	defer server.storeLock.Unlock()
 
@@ -335,6 +342,7 @@ func (server *SugarDB) createDatabase(database int) {
 }
 
 func (server *SugarDB) getState() map[int]map[string]interface{} {
+	verifhook.Point("keyspace.getState")
 	// Wait unit there's no state mutation or copy in progress before starting a new copy process.
 	for {
 		if !server.stateCopyInProgress.Load() && !server.stateMutationInProgress.Load() {
